@@ -23,6 +23,7 @@ _rc = {}
 _bxkeys = {}
 _pw = {}           # (name, k, inputs) -> atom id      position-wise opaque functions (bitsliced S-boxes)
 PW_INVERSES = {}   # 'pw:f' -> 'pw:g' : g(f(x_1..x_n)) = (x_1..x_n) position-wise (a proved lemma, see c01.py)
+ISA = {}          # operator name -> expansion of a CPU instruction into bit-level normal form (installed by c02_hw)
 ONE = frozenset([0])
 ZERO = frozenset()
 
@@ -35,6 +36,7 @@ def reset():
     _bxkeys.clear()
     _pw.clear()
     PW_INVERSES.clear()
+    ISA.clear()
 
 
 def _atom(t, i):
@@ -49,6 +51,33 @@ def _atom(t, i):
 
 def _opaque(t):
     return tuple(frozenset([_atom(t, i)]) for i in range(T.width(t)))
+
+
+def pw_bit(name, j, ins):
+    """bit j of the position-wise opaque function `name` applied to the bits `ins` (one XOR-set per argument word) of one
+    bit position; a declared (proved) inverse pair cancels"""
+    inv = PW_INVERSES.get(name)
+    if inv is not None:
+        X = None
+        for q, x in enumerate(ins):
+            if len(x) != 1:
+                X = None
+                break
+            (a,) = x
+            d = _atom_of[a]
+            if d[0] != 'pw' or d[1] != inv or d[2] != q or len(d[3]) != len(ins) or (X is not None and d[3] != X):
+                X = None
+                break
+            X = d[3]
+        if X is not None:
+            return X[j]
+    key = (name, j, ins)
+    a = _pw.get(key)
+    if a is None:
+        a = len(_atom_of)
+        _pw[key] = a
+        _atom_of.append(('pw', name, j, ins))
+    return frozenset([a])
 
 
 def bitform(t):
@@ -108,38 +137,14 @@ def bitform(t):
         # output #j of a position-wise function of the argument words: bit i depends on bits i of the arguments only
         name, j = k.split('#')
         j = int(j)
-        inv = PW_INVERSES.get(name)
         bfs = [bitform(a) for a in t[2:]]
-        out = []
-        for i in range(t[1]):
-            ins = tuple(b[i] for b in bfs)
-            res = None
-            if inv is not None:
-                X = None
-                for q, x in enumerate(ins):
-                    if len(x) != 1:
-                        X = None
-                        break
-                    (a,) = x
-                    d = _atom_of[a]
-                    if d[0] != 'pw' or d[1] != inv or d[2] != q or len(d[3]) != len(ins) or (X is not None and d[3] != X):
-                        X = None
-                        break
-                    X = d[3]
-                if X is not None:
-                    res = X[j]
-            if res is None:
-                key = (name, j, ins)
-                a = _pw.get(key)
-                if a is None:
-                    a = len(_atom_of)
-                    _pw[key] = a
-                    _atom_of.append(('pw', name, j, ins))
-                res = frozenset([a])
-            out.append(res)
+        out = [pw_bit(name, j, tuple(b[i] for b in bfs)) for i in range(t[1])]
         r = tuple(out)
     else:
-        r = _opaque(t)
+        h = ISA.get(k.split('#')[0]) if ISA else None
+        r = h(t) if h is not None else None
+        if r is None:
+            r = _opaque(t)
     _bf[id(t)] = r
     return r
 
